@@ -1,20 +1,36 @@
 #!/bin/bash
-# usage: benigneval.sh <dir with patch.diff NOTES.md> <id>  — applies a property-preserving change to /repo,
-# runs the repo suite and EVERY check (quick); any rc!=0 is a false alarm (or a harness build break).
+# usage: benigneval.sh <dir with patch.diff NOTES.md> <id>  — applies a property-preserving change, runs the repo
+# suite and EVERY check (quick); any rc!=0 is a false alarm (or a harness build break).
+# Default: applies to /repo and reverts.  BENIGN_ALT=1: uses a scratch worktree + experiment mode (parallel-safe).
 export GOFLAGS=-mod=mod GOPROXY=off GOSUMDB=off GOTOOLCHAIN=local
 src=$1; id=$2
 dst=/verif/seeded/benign-$id
-mkdir -p $dst; cp $src/patch.diff $dst/; cp $src/NOTES.md $dst/ 2>/dev/null
+mkdir -p $dst; [ "$src" -ef "$dst" ] || { cp $src/patch.diff $dst/; cp $src/NOTES.md $dst/ 2>/dev/null; }
 cd /verif
-if ! git -C /repo apply $dst/patch.diff 2>$dst/apply.err; then echo "$id: patch does not apply"; exit 1; fi
-suite=fail; /verif/repotest.sh > $dst/suite.log 2>&1 && suite=pass
+if [ -n "$BENIGN_ALT" ]; then
+  wt=/tmp/bv-$id
+  git -C /repo worktree remove --force $wt 2>/dev/null
+  git -C /repo worktree add -q $wt HEAD || exit 2
+  if ! (cd $wt && git apply $dst/patch.diff 2>$dst/apply.err); then echo "$id: patch does not apply"; git -C /repo worktree remove --force $wt; exit 1; fi
+  suite=fail; (cd $wt && go build ./... && go test -vet=off -count=1 ./... ) > $dst/suite.log 2>&1 && suite=pass
+  export VERIF_ALT_REPO=$wt
+else
+  if ! git -C /repo apply $dst/patch.diff 2>$dst/apply.err; then echo "$id: patch does not apply"; exit 1; fi
+  suite=fail; /verif/repotest.sh > $dst/suite.log 2>&1 && suite=pass
+fi
 res=""; alarms=""
-for n in 01 02 03 04 05 06 07 08 09 10 11 12 13 14 15 16 17 18 19; do
+rm -f $dst/alarm-C*.txt
+for n in ${BENIGN_CHECKS:-01 02 03 04 05 06 07 08 09 10 11 12 13 14 15 16 17 18 19}; do
   out=$(/verif/run.sh C$n quick 2>&1); rc=$?
   res="$res C$n:$rc"
   if [ $rc != 0 ]; then alarms="$alarms C$n"; echo "$out" | grep -v '^  clause\|^  family' | head -30 > $dst/alarm-C$n.txt; fi
 done
-git -C /repo checkout -q -- .; git -C /repo clean -fdq
+if [ -n "$BENIGN_ALT" ]; then
+  rm -rf /verif/.work/alt-$(echo "$wt" | md5sum | cut -c1-10)
+  git -C /repo worktree remove --force $wt
+else
+  git -C /repo checkout -q -- .; git -C /repo clean -fdq
+fi
 python3 - "$id" "$suite" "$alarms" "$res" <<'PY'
 import json,sys
 id,suite,alarms,res=sys.argv[1:]
